@@ -168,7 +168,7 @@ def run(tier, rep, ev):
             add(sizes=sizes, mode="thread", sink="path", schedule=[], seed=k, shared_parent=True, mkdir_rendezvous=True, coder=["lzma2", "copy"][k % 2])
         add(sizes=sizes, mode="process", sink="path", schedule=[], seed=1, shared_parent=True)
         # workers meeting at the entry of Worker._check: every folder has a passed-over member in front of its selected last one, so each
-        # worker thread holds pending discards when it gets there (state kept per extraction must be per folder; seed C13-9)
+        # worker thread holds pending discards when it gets there (state kept per extraction must be per folder; seed C13-7)
         multi = [f for f in range(1, len(sizes) + 1) if len(sizes[f - 1]) >= 2]
         if len(multi) >= 2:
             tg = [f"f{f}/m{len(sizes[f - 1])}-ü.bin" for f in multi]
@@ -176,7 +176,7 @@ def run(tier, rep, ev):
                 add(sizes=sizes, mode="thread", sink=sink, schedule=[], targets=tg, seed=k, rendezvous=["_check"], rendezvous_parties=len(multi),
                     coder=["lzma2", "copy", "bzip2"][k])
         # members of different folders in one directory whose names differ in the last suffix only, the workers meeting before any
-        # of them has written: whatever scratch name a worker uses on the way must be its own (seed C13-10)
+        # of them has written: whatever scratch name a worker uses on the way must be its own (seed C13-9)
         for k in range(2 if tier == "quick" else 8):
             add(sizes=sizes, mode="thread", sink="path", schedule=[], seed=k, siblings=True, rendezvous=["decompress"], coder=["copy", "lzma2"][k % 2])
         add(sizes=sizes, mode="process", sink="path", schedule=[], seed=1, siblings=True)
